@@ -411,11 +411,18 @@ def coord_pairs(repo, col, ms, qn, var):
                 for lin in (mhi.group(1), mhi.group(2)):
                     if lin.endswith(" + " + lo) or lin.startswith(lo + " + "):
                         ok = True
-        col.add(rule, fn, "%s[%d]: (%s, %s)" % (var, k, lo, hi), ok,
-                "" if ok else "pair %d of %s is not (C*i, min(C*(i+1), S)): "
-                "chunks are labelled with coordinates that differ from the "
-                "region they hold" % (k, var), node=pair,
-                undecided=(lo is None or hi is None))
+        # bounds that arrive as plain values (loop targets over a table of
+        # tiles computed elsewhere) carry no arithmetic to compare
+        opaque = any(f is not None and re.match(r"^[A-Za-z_]\w*$", f)
+                     for f in (lo, hi))
+        col.add(rule, fn, "%s[%d]: (%s, %s)" % (var, k, lo, hi), ok or opaque,
+                "" if ok else ("bounds computed where this rule does not "
+                               "follow them" if opaque else
+                               "pair %d of %s is not (C*i, min(C*(i+1), S)): "
+                               "chunks are labelled with coordinates that "
+                               "differ from the region they hold" % (k, var)),
+                node=pair,
+                undecided=(lo is None or hi is None or opaque) and not ok)
     return 3
 
 
